@@ -31,6 +31,7 @@ type Engine struct {
 	funcs      map[string]*ssa.Function
 	mu         sync.Mutex
 	repo       string
+	exprIDs    map[*CExpr]int
 }
 
 func repoDir() string {
@@ -363,4 +364,19 @@ func (eng *Engine) defineSpec(e *CEnv, sf *SpecFunc) {
 	for u := range pr.used {
 		c.defUses[u] = true
 	}
+}
+
+// exprID gives a stable small id to a contract AST node.
+func (eng *Engine) exprID(x *CExpr) int {
+	eng.mu.Lock()
+	defer eng.mu.Unlock()
+	if eng.exprIDs == nil {
+		eng.exprIDs = map[*CExpr]int{}
+	}
+	if id, ok := eng.exprIDs[x]; ok {
+		return id
+	}
+	id := len(eng.exprIDs) + 1
+	eng.exprIDs[x] = id
+	return id
 }
